@@ -34,6 +34,21 @@ PROPS = {
         "assumptions": [
             "RdataSet length prefixes use native endianness (modelled little-endian; encode and decode agree, so unobservable)",
         ],
+    "C06": {
+        "groups": ["zone"],
+        "design_ref": "§6 C06 zone lookups · C20 zone store · C21 validation · C22 catalog",
+        "technique": "Lean 4 proof: tree lookup (lookup_impl) = flat-record-list RFC 1034 §4.3.2 / RFC 4592 specification for every add sequence, name, type and option combination (tree invariant + abstraction); model tied to src/db/hash_map_tree/{zone,node}.rs, src/db/rrset.rs by differential correspondence on whole zone sessions incl. exhaustive small zones",
+    },
+    "C20": {
+        "groups": ["zone"],
+        "design_ref": "§6 C06 zone lookups · C20 zone store · C21 validation · C22 catalog",
+        "strict_err": True,
+        "technique": "Lean 4 proof: add succeeds ↔ owner/class/TTL conditions, rejected add leaves the tree unchanged, abstraction to the flat de-duplicated record list commutes with add, iteration is a permutation of the specified nodes/RRsets; correspondence on add sequences with iteration after every prefix",
+    },
+    "C21": {
+        "groups": ["zone"],
+        "design_ref": "§6 C06 zone lookups · C20 zone store · C21 validation · C22 catalog",
+        "technique": "Lean 4 proof: validate (as a set) = issues of a reference checker stated as a predicate over the flat record list; severity split extracted from ValidationIssue::is_error (tools/extract_validation.py); correspondence on random and exhaustive zones under both glue policies and classes IN/CH/HS",
     },
 }
 
